@@ -70,28 +70,36 @@ class _Inherited(NDEnv):
     pass
 
 
-_NENVS: List[jp.JSONPathEnvironment] = []
-
-
 def worker_init() -> None:
     global _DENV, _NENV
     _DENV = jp.JSONPathEnvironment()
     _NENV = NDEnv()
-    # the ways a user switches the mode on: a subclass attribute, the subclass of such a subclass,
-    # an attribute set on a plain environment object, an object attribute overriding its class
-    plain = jp.JSONPathEnvironment()
-    plain.nondeterministic = True
-    over = _Det()
-    over.nondeterministic = True
-    _NENVS[:] = [_NENV, _Inherited(), plain, over]
+
+
+def _plain_on() -> jp.JSONPathEnvironment:
+    env = jp.JSONPathEnvironment()
+    env.nondeterministic = True
+    return env
+
+
+def _over_on() -> jp.JSONPathEnvironment:
+    env = _Det()
+    env.nondeterministic = True
+    return env
+
+
+# the ways a user switches the mode on: a subclass attribute, the subclass of such a subclass,
+# an attribute set on a plain environment object, an object attribute overriding its class
+_NENV_FACTORIES = (NDEnv, _Inherited, _plain_on, _over_on)
 
 
 def _nenv(text: str) -> jp.JSONPathEnvironment:
-    """Which of the equivalent nondeterministic environments evaluates this query: a function
-    of the query text alone (so a replay needs nothing more)."""
+    """A FRESH nondeterministic environment (built while the simulated generator is installed, so
+    that whatever randomness an environment sets up for itself at construction is part of the run);
+    which of the equivalent kinds is a function of the query text alone (a replay needs nothing more)."""
     import zlib
 
-    return _NENVS[zlib.crc32(text.encode("utf-8", "surrogatepass")) % len(_NENVS)]
+    return _NENV_FACTORIES[zlib.crc32(text.encode("utf-8", "surrogatepass")) % len(_NENV_FACTORIES)]()
 
 
 # ---------------------------------------------------------------------------
